@@ -1,264 +1,12 @@
 //! Operand-pair enumeration for binary operations: complete small scope (S1),
-//! crossed boundary alphabets (S2) and result-side frontier construction (S3).
+//! crossed boundary alphabets (S2) and result-side frontier construction (S3,
+//! see frontier.rs).
 
 use crate::alpha::{self, Level};
-use crate::big::{I512, U512};
+pub use crate::frontier::*;
 use crate::runner::*;
 use fpdec::RoundingMode;
 use std::collections::HashSet;
-
-pub const M: i128 = i128::MAX;
-
-pub fn clip(v: &I512) -> Option<i128> {
-    match v.to_i128() {
-        Some(x) if x != i128::MIN => Some(x),
-        _ => None,
-    }
-}
-
-fn push_i512(out: &mut Vec<i128>, v: &I512) {
-    if let Some(x) = clip(v) {
-        out.push(x);
-    }
-}
-
-/// floor(n / d) for d > 0 in I512.
-pub fn floor_div(n: &I512, d: &U512) -> I512 {
-    let (q, r) = n.mag.divrem(d);
-    if n.neg && !r.is_zero() {
-        I512::new(true, q.add(&U512::ONE))
-    } else {
-        I512::new(n.neg, q)
-    }
-}
-
-/// Push floor(n/d) + deltas (clipped to the Decimal coefficient range).
-pub fn push_solutions(out: &mut Vec<i128>, n: &I512, d: &U512, deltas: &[i128]) {
-    let f = floor_div(n, d);
-    for &dl in deltas {
-        push_i512(out, &f.add(&I512::from_i128(dl)));
-    }
-}
-
-/// Overflow frontier for add/sub: all `a` (at scale p) such that
-/// a*10^(m-p) (+/-) b*10^(m-q) sits on / next to each target T, and the
-/// alignment thresholds of `a` itself.
-pub fn frontier_add(b: i128, p: u8, q: u8, out: &mut Vec<i128>) {
-    let m = p.max(q);
-    let bb = I512::from_i128(b).mul_pow10((m - q) as u32);
-    let sa = U512::pow10((m - p) as u32);
-    let lim = I512::from_u128(1u128 << 127);
-    let targets: Vec<I512> = {
-        let mut t = Vec::new();
-        for d in -3i128..=2 {
-            t.push(lim.add(&I512::from_i128(d))); //  2^127-3 .. 2^127+2
-            t.push(lim.neg().add(&I512::from_i128(-d))); // -2^127+3 .. -2^127-2
-        }
-        for d in -1i128..=1 {
-            t.push(I512::from_i128(d));
-        }
-        t
-    };
-    for t in &targets {
-        // a*sa + bb = t  and  a*sa - bb = t
-        for rhs in [t.sub(&bb), t.add(&bb)] {
-            push_solutions(out, &rhs, &sa, &[0, 1]);
-        }
-    }
-    // alignment frontier of a
-    if p < m {
-        let t = M / alpha::pow10((m - p) as u32);
-        for v in [t - 1, t, t + 1, t + 2] {
-            out.push(v);
-            out.push(-v);
-        }
-    }
-}
-
-/// Overflow frontier for exact products: a = floor(T / b) + {-1,0,1,2}.
-pub fn frontier_mul_overflow(b: i128, out: &mut Vec<i128>) {
-    if b == 0 {
-        return;
-    }
-    let bm = U512::from_u128(b.unsigned_abs());
-    let lim = I512::from_u128(1u128 << 127);
-    for d in [-2i128, -1, 0, 1] {
-        for t in [lim.add(&I512::from_i128(d)), lim.neg().sub(&I512::from_i128(d))] {
-            let t = if b < 0 { t.neg() } else { t };
-            push_solutions(out, &t, &bm, &[-1, 0, 1, 2]);
-        }
-    }
-}
-
-fn modinv(a: u128, m: u128) -> Option<u128> {
-    // extended Euclid on i128 (m <= 10^18)
-    let (mut old_r, mut r) = (a as i128 % m as i128, m as i128);
-    let (mut old_s, mut s) = (1i128, 0i128);
-    while r != 0 {
-        let q = old_r / r;
-        (old_r, r) = (r, old_r - q * r);
-        (old_s, s) = (s, old_s - q * s);
-    }
-    if old_r != 1 {
-        return None;
-    }
-    Some(old_s.rem_euclid(m as i128) as u128)
-}
-
-/// Quotient alphabet used for rounding frontiers.
-pub fn quotients(level: Level) -> Vec<i128> {
-    let mut v: Vec<i128> = (0..=21).collect();
-    v.extend_from_slice(&[24, 25, 49, 50, 95, 99, 100, 101, 105]);
-    let ks: Vec<u32> = if level == Level::Quick { vec![9, 18, 19, 27, 36, 37, 38] } else { (3..=38).collect() };
-    for k in ks {
-        let p = alpha::pow10(k);
-        for d in [-5i128, -1, 0, 1, 4, 5] {
-            v.push(p + d);
-        }
-        if p <= M / 5 { v.push(5 * p); v.push(5 * p + 5); }
-    }
-    v.extend_from_slice(&[M, M - 1, M - 2, M - 5, M / 2, M / 2 + 1, (1 << 64) - 1, 1 << 64, (1 << 64) + 1, (1i128 << 126) + 5]);
-    v.sort();
-    v.dedup();
-    v
-}
-
-/// Rounding frontier for products: all `a` with a*b in the neighbourhood of
-/// Q*10^s + rho for every residue class rho of interest. For b coprime to 10
-/// the residues are hit exactly (modular inverse); otherwise straddled.
-pub fn frontier_mul_round(b: i128, s: u32, qs: &[i128], out: &mut Vec<i128>) {
-    if b == 0 || s == 0 {
-        return;
-    }
-    let ps = alpha::pow10(s.min(38));
-    let bm = U512::from_u128(b.unsigned_abs());
-    let half = ps / 2;
-    let rhos = [0i128, 1, half - 1, half, half + 1, ps - 1];
-    // straddling construction: a = floor((Q*10^s + rho) / |b|) + {0,1}
-    for &qv in qs {
-        let base = I512::from_i128(qv).mul(&I512::from_i128(ps));
-        for &rho in &rhos {
-            let t = base.add(&I512::from_i128(rho));
-            let f = floor_div(&t, &bm);
-            for dl in [0i128, 1] {
-                if let Some(x) = clip(&f.add(&I512::from_i128(dl))) {
-                    out.push(x);
-                    out.push(-x);
-                }
-            }
-        }
-    }
-    // exact residues for b coprime to 10 (s <= 18 so 10^s fits)
-    if s <= 18 && b % 2 != 0 && b % 5 != 0 {
-        let m = ps as u128;
-        let binv = modinv(b.unsigned_abs() % m, m).unwrap();
-        for &rho in &rhos {
-            let a0 = ((rho as u128 % m) * binv % m) as i128; // a0*|b| == rho mod 10^s
-            // small multiples and the top of the range
-            let mut ts: Vec<i128> = (0..6).collect();
-            let top = (M - a0) / ps;
-            for d in 0..4 {
-                ts.push(top - d);
-            }
-            // t such that a*b is near the i128 product limit and near 2^127 * 10^s / b
-            let t_lim = floor_div(&I512::from_u128(1u128 << 127), &bm).to_i128().unwrap_or(0) / ps;
-            for d in -1..=1 {
-                ts.push(t_lim + d);
-            }
-            for t in ts {
-                if t < 0 { continue; }
-                if let Some(x) = t.checked_mul(ps).and_then(|v| v.checked_add(a0)) {
-                    out.push(x);
-                    out.push(-x);
-                }
-            }
-        }
-    }
-    // exact ties for 2-5-smooth b: a = (2Q+1) * (10^s/2) / |b| when |b| divides 10^s/2 * odd
-    let h = U512::pow10(s).divrem_u64(2).0;
-    let (hq, hr) = h.divrem(&bm);
-    if hr.is_zero() {
-        for &qv in qs.iter().take(40) {
-            let odd = I512::from_i128(qv).mul(&I512::from_i128(2)).add(&I512::from_i128(1));
-            let a = odd.mul(&I512::new(false, hq));
-            if let Some(x) = clip(&a) {
-                out.push(x);
-                out.push(-x);
-            }
-        }
-    }
-}
-
-/// Rounding frontier for quotients: all `a` such that a*10^up / (|b|*10^down)
-/// is next to the integer boundary Q and the half boundary Q + 1/2.
-pub fn frontier_div_round(b: i128, up: u32, down: u32, qs: &[i128], out: &mut Vec<i128>) {
-    if b == 0 {
-        return;
-    }
-    let den = I512::from_u128(b.unsigned_abs()).mul_pow10(down); // positive
-    let pu = U512::pow10(up);
-    for &qv in qs {
-        let qd = I512::from_i128(qv).mul(&den);
-        // integer boundary: a*10^up = Q*den
-        push_both(out, &qd, &pu);
-        // half boundary: a*10^up = Q*den + den/2
-        let half = I512::new(false, den.mag.divrem_u64(2).0);
-        push_both(out, &qd.add(&half), &pu);
-        if den.mag.is_odd() {
-            push_both(out, &qd.add(&half).add(&I512::from_i128(1)), &pu);
-        }
-    }
-}
-
-fn push_both(out: &mut Vec<i128>, n: &I512, d: &U512) {
-    let f = floor_div(n, d);
-    for dl in [-1i128, 0, 1, 2] {
-        if let Some(x) = clip(&f.add(&I512::from_i128(dl))) {
-            out.push(x);
-            out.push(-x);
-        }
-    }
-}
-
-/// Divisor alphabet for division frontiers.
-pub fn divisors(level: Level) -> Vec<i128> {
-    let mut v: Vec<i128> = vec![2, 3, 4, 5, 6, 7, 8, 9, 11, 13, 16, 25, 32, 64, 125, 1024, 3125];
-    let step = if level == Level::Quick { 5 } else { 1 };
-    let mut k = 1;
-    while k <= 38 {
-        let p = alpha::pow10(k);
-        v.push(p);
-        v.push(p - 1);
-        v.push(p + 1);
-        if p <= M / 2 { v.push(2 * p); }
-        if p <= M / 3 { v.push(3 * p); }
-        if k % step == 0 || k == 38 {
-            if p <= M / 7 { v.push(7 * p); }
-        }
-        k += 1;
-    }
-    let mut k = 10;
-    while k <= 126 {
-        v.push(1i128 << k);
-        if level != Level::Quick || k % 16 == 0 {
-            v.push((1i128 << k) - 1);
-            v.push((1i128 << k) + 1);
-        }
-        k += if level == Level::Quick { 7 } else { 1 };
-    }
-    // limb shapes: normalised-minimal top limb with maximal low limb and shifts
-    let shape: u128 = (1u128 << 127) | ((1u128 << 64) - 1);
-    for sh in 1..=64 {
-        if level != Level::Quick || sh % 9 == 1 {
-            v.push((shape >> sh) as i128);
-        }
-    }
-    v.extend_from_slice(&[(1 << 64) - 1, 1 << 64, (1 << 64) + 1, M, M - 1, M / 2, M / 3, 999999999999999999, 10i128.pow(18) - 1,
-        123456789012345678901234567890123456789, 98765432109876543210987654321]);
-    v.sort();
-    v.dedup();
-    v
-}
 
 pub type Outer = (i128, u8, u8);
 
